@@ -100,6 +100,13 @@ impl FramedWriteS {
             r is Ok ==> final(self).items@ == old(self).items@.push(item@),
             r is Err ==> final(self).items@ == old(self).items@,
     { unimplemented!() }
+    /// FramedWrite::poll_ready / poll_flush / poll_close: they move what has been handed over towards the socket; no item is added or changed
+    #[verifier::external_body]
+    pub fn poll_ready(&mut self, cx: &mut Context) -> (r: Poll<Result<(), IoError>>) ensures *final(self) == *old(self) { unimplemented!() }
+    #[verifier::external_body]
+    pub fn poll_flush(&mut self, cx: &mut Context) -> (r: Poll<Result<(), IoError>>) ensures *final(self) == *old(self) { unimplemented!() }
+    #[verifier::external_body]
+    pub fn poll_close(&mut self, cx: &mut Context) -> (r: Poll<Result<(), IoError>>) ensures *final(self) == *old(self) { unimplemented!() }
 }
 /// the local idle time-out timer (transport::IdleTimeout): how often it has been restarted, and whether polling it now reports that it ran out
 pub struct IdleTimeoutS { pub resets: Ghost<nat>, pub elapsed: Ghost<bool> }
@@ -124,6 +131,12 @@ impl IdleTimeoutS {
 }
 pub struct Context { pub g: Ghost<int> }
 pub enum Poll<T> { Ready(T), Pending }
+/// `Poll<Result<T, io::Error>>::map_err(Into::into)` (std: the error of a ready result converted, everything else kept)
+impl Poll<Result<(), IoError>> {
+    pub fn map_err_io(self) -> (r: Poll<Result<(), Error>>)
+        ensures (match self { Poll::Ready(Ok(v)) => r == Poll::Ready(Ok::<(), Error>(v)), Poll::Ready(Err(e)) => r == Poll::Ready(Err::<(), Error>(Error::Io(e))), Poll::Pending => r is Pending }),
+    { match self { Poll::Ready(Ok(v)) => Poll::Ready(Ok(v)), Poll::Ready(Err(e)) => Poll::Ready(Err(Error::Io(e))), Poll::Pending => Poll::Pending } }
+}
 /// FramedRead<_, LengthDelimitedCodec>: yields the next length-delimited item, an error, end of stream, or nothing yet
 pub struct FramedReadS { pub got: Ghost<nat>, pub codec: LenCodec }
 impl FramedReadS {
@@ -216,6 +229,39 @@ impl Transport {
             assert(it1.push(b1).skip(k) =~= it1.skip(k).push(b1));
             assert(it1.push(b1).take(k) =~= items0);
         }
+//@@ end
+
+//@@ fn file=fe2o3-amqp/src/transport/mod.rs impl=`impl<Io> Sink<amqp::Frame> for Transport<Io, amqp::Frame> where Io: AsyncWrite + Unpin,` name=poll_ready id=Transport::poll_ready
+//@@ subst `self: std::pin::Pin<&mut Self>` => `&mut self` rule=R3
+//@@ subst `cx: &mut std::task::Context<'_>` => `cx: &mut Context` rule=R11
+//@@ ret Poll<Result<(), Error>>
+//@@ subst `let this = self.project();` => `` rule=R3
+//@@ subst `this.` => `self.` rule=R3
+//@@ subst `.map_err(Into::into)` => `.map_err_io()` rule=R17
+//@@ spec
+    ensures *final(self) == *old(self),       // [C17.idle.sending-does-not-restart] [C06.transport.no-loss] driving the writer (ready / flush / close) adds nothing to and takes nothing from what was handed over, and leaves the local idle timer alone: only what the PEER sends restarts it
+//@@ end
+
+//@@ fn file=fe2o3-amqp/src/transport/mod.rs impl=`impl<Io> Sink<amqp::Frame> for Transport<Io, amqp::Frame> where Io: AsyncWrite + Unpin,` name=poll_flush id=Transport::poll_flush
+//@@ subst `self: std::pin::Pin<&mut Self>` => `&mut self` rule=R3
+//@@ subst `cx: &mut std::task::Context<'_>` => `cx: &mut Context` rule=R11
+//@@ ret Poll<Result<(), Error>>
+//@@ subst `let this = self.project();` => `` rule=R3
+//@@ subst `this.` => `self.` rule=R3
+//@@ subst `.map_err(Into::into)` => `.map_err_io()` rule=R17
+//@@ spec
+    ensures *final(self) == *old(self),       // [C17.idle.sending-does-not-restart] [C06.transport.no-loss] driving the writer (ready / flush / close) adds nothing to and takes nothing from what was handed over, and leaves the local idle timer alone: only what the PEER sends restarts it
+//@@ end
+
+//@@ fn file=fe2o3-amqp/src/transport/mod.rs impl=`impl<Io> Sink<amqp::Frame> for Transport<Io, amqp::Frame> where Io: AsyncWrite + Unpin,` name=poll_close id=Transport::poll_close
+//@@ subst `self: std::pin::Pin<&mut Self>` => `&mut self` rule=R3
+//@@ subst `cx: &mut std::task::Context<'_>` => `cx: &mut Context` rule=R11
+//@@ ret Poll<Result<(), Error>>
+//@@ subst `let this = self.project();` => `` rule=R3
+//@@ subst `this.` => `self.` rule=R3
+//@@ subst `.map_err(Into::into)` => `.map_err_io()` rule=R17
+//@@ spec
+    ensures *final(self) == *old(self),       // [C17.idle.sending-does-not-restart] [C06.transport.no-loss] driving the writer (ready / flush / close) adds nothing to and takes nothing from what was handed over, and leaves the local idle timer alone: only what the PEER sends restarts it
 //@@ end
 
 //@@ fn file=fe2o3-amqp/src/transport/mod.rs impl=`impl<Io> Stream for Transport<Io, amqp::Frame> where Io: AsyncRead + Unpin,` name=poll_next
